@@ -23,7 +23,7 @@ CLAIMED.update({
             'and the observers are closed forms over the three words. Behavioural clauses that need run-time ledger state are not decided.',
             'Trusts clang 14 IR lowering, the probe corpus as the set of instantiations, the header\'s asserts as entry contracts.',
             'DESIGN.md section 6 C02'),
-    'C04': ('other', 'path-sensitive allocate->commit-or-release typestate over LLVM IR incl. exception edges',
+    'C04': ('other', 'path-sensitive allocate->commit-or-release typestate over LLVM IR incl. exception edges; committed capacity of a fresh block exceeds the inline capacity (R02.7)',
             'Pairing clause per operation: every allocation is committed to a container (pointer and the same count) or released through the '
             'same allocator object with the same count on every CFG path including unwind edges and handlers; exact-once over histories is not decided.',
             'Trusts clang 14 IR lowering of exceptions; probe allocator/element operations are opaque externals; Allocator requirements.',
@@ -37,7 +37,7 @@ CLAIMED.update({
             'catch-all handlers re-throw.',
             'Trusts g++/clang++ noexcept evaluation; clang lowers noexcept to invoke->terminate pads; probe operations are the exception sources.',
             'DESIGN.md section 6 C18'),
-    'C07': ('other', 'trap-allocator compile witnesses for trait-selected overloads (16 trait combinations) + allocator-flow rules over LLVM IR',
+    'C07': ('other', 'trap-allocator compile witnesses for trait-selected overloads (16 trait combinations) + allocator-flow rules over LLVM IR (propagation once iff the trait, allocator epoch, no select_on_container_copy_construction result installed by assignment)',
             'Structural whole: which code path is selected is decided at type level for every trait combination; must-pass-through and '
             'allocator-epoch ordering on every path in IR. Element values are not decided.',
             'Trusts g++/clang++ overload resolution and template instantiation; Allocator requirements.',
@@ -74,7 +74,7 @@ CLAIMED.update({
             'Structural whole: the aliasing argument is never read after existing elements or their storage were disturbed, on any path of the listed operations.',
             'Trusts the may-effect summaries of opaque callees (element move/assign/destroy reachability) and the raw-storage classification.',
             'DESIGN.md section 6 C11'),
-    'C13': ('other', 'trait grid vs conversion oracle and twin-agreement compile batteries (two compilers, all standards); raw-copy extent rule over IR',
+    'C13': ('other', 'trait grid vs conversion oracle and twin-agreement compile batteries (two compilers, all standards); raw-copy extent rule over IR; inferred-law agreement between byte-copy and element-wise twins of the range helpers',
             'Necessary structural conditions: byte-copy traits admit only representation-preserving conversions and contiguous iterators; '
             'shortcuts add no requirement (twin agreement); converting contiguous ranges are accepted wherever the generic path is.',
             'Trusts the oracle table ([conv], Itanium ABI, self-checked platform facts) and g++/clang++ well-formedness verdicts.',
@@ -93,7 +93,7 @@ CLAIMED.update({
             'Structural content of the statement on every path of the move/swap mechanisms; value preservation follows from "pointer copied, nothing touched".',
             'Trusts may-effect summaries of opaque callees; steal classification shared with C02 (R02.1).',
             'DESIGN.md section 6 C09'),
-    'C15': ('other', 'iterator typestate over LLVM IR paths with an opaque input iterator; structural generator-loop rule',
+    'C15': ('other', 'iterator typestate over LLVM IR paths with an opaque input iterator; structural generator-loop rule; returned-position law for the iterator overloads',
             'Each position of a single-pass range is end-checked, read once and incremented once on every path; stale copies are never used; '
             'the generator is called exactly once per iteration up to begin + count.',
             'Trusts loop exploration by typestate repetition; the probe iterator as the model of every input iterator.',
@@ -104,7 +104,7 @@ CLAIMED.update({
             'assign where elements live, construct where none do, destroy exactly what leaves the sequence (R03.7). Once-ness over whole histories is not decided.',
             'Trusts the probe element types as the model of non-trivial elements; may-effect summaries.',
             'DESIGN.md section 6 C03'),
-    'C17': ('other', 'corpus well-formedness under every standard and both compilers; cross-standard agreement of per-function static fingerprints; path rules per standard',
+    'C17': ('other', 'corpus well-formedness under every standard and both compilers; cross-standard agreement of per-function static fingerprints; path rules, operation laws and operator algebra per standard',
             'Necessary conditions only: every probe TU compiles under c++11..2b (+GCH_DISABLE_CONCEPTS); each header function has the same reachable-primitive / '
             'escaping-exception / word-writing / non-throwing fingerprint under every standard; a selection of path rules per standard. Histories are not replayed.',
             'Trusts demangled-signature matching across standards; clang++ c++2b built with -U__cpp_if_consteval.',
